@@ -14,7 +14,7 @@ VARNAMES = ['True', 'False', 'None', 'ATOM_NIL', '__debug__', 'Arg1', 'L1', 'X1'
             '__builtins__', 'V_True', 'V_V_None', 'Query', 'Unify', '_arg1', 'X', 'Yield', 'Def', 'V_', 'Self', '__class__', '__name__']
 HEADS = ["'hello world'(a)", "'1'(b)", "''(a)", "a = b", "if(a)", "def(a)", "'é'(a)", "class(x)", "lambda(a)", "'None'(a)",
          "'ﬁ'(a)", "import", "'x y'", "return(1)", "yield", "'a.b'(c)", "print(a)", "'A'(b)", "x1(a)", "arg1", "query(a)",
-         "atom(a)", "'_'(a)", "__init__(a)", "not(a)", "'p\n'(a)", "\\+ a", "- a", "a/1", "[a]", "'p_1'", "p_1(a)", "pass"]
+         "atom(a)", "'_'(a)", "wide(a,b,c,d,e,f,g,h,i,j)", "wide(A,B,C,D,E,F,G,H,I,J,K,L)", "'cafe\u0301'(x)", "'u\u0308ber'", "'\u1100\u1161'(a)", "'A\u030a'(z)", "__init__(a)", "not(a)", "'p\n'(a)", "\\+ a", "- a", "a/1", "[a]", "'p_1'", "p_1(a)", "pass"]
 NEVER = ["fail", "fail, q", "(fail;fail)", "\\+ true", "q, fail", "(fail -> true ; fail)", "\\+ \\+ fail", "true -> fail",
          "(fail, !)", "!, fail", "fail ; fail ; fail", "(q ; r), fail"]
 ARGS = ["a/1", "- 1", "+ a", "1 < 2", "=(a,b)", "a = b", "(a)", "[a|T]", "[a,|T]", "f()", "'q'(r)", "1(2)", "[]", "'[]'", "\\=(X,Y)",
